@@ -34,7 +34,7 @@ func runC15(rc *RunCtx) {
 	rc.Quietly(func() { m.User.Fund("A", 255); m.User.Fund("A", 100) })
 	conc := rc.P("conc", -1)
 	// weights:       fund swap melt resolve replay dup race checkstate restore restart clock adv internal rotate
-	weights := []int{1, 3, 3, 2, 1, 0, 0, 5, 4, 1, 0, 0, 1, 0}
+	weights := []int{1, 3, 3, 2, 1, 0, 0, 5, 4, 1, 0, 0, 1, 0, 1}
 	rc.StepLoop(4, 16, func(i int) {
 		m.step = i
 		c := T.Chance("conc", 1, 3)
